@@ -329,4 +329,49 @@ Section ZSkip.
           -- intros E. discriminate E.
           -- intros E. discriminate E.
   Qed.
+  (* mixed outcomes in ONE solve (max_iter = 2, errors='skip', failures='ignore'): from 0 the iteration converges at once ('.'),
+     from 2 it is still moving after two passes ('F'), from 40 the first pass leaves the finite range ('S') *)
+  Definition zstate_mix : mstate Z := mkState [[0; 2; 40; 0]; [1; 1; 1; 1]] [Unsolved; Unsolved; Unsolved; Unsolved] [-1; -1; -1; -1] [].
+  Definition zopts_mix : opts Z := mkOpts 0 2 1 0 false ESkip true.
+  Ltac three_cases i := destruct i as [|[|[|i]]]; try lia; vm_compute; reflexivity.
+  Ltac mix_period :=
+    split; [lia|]; split; [reflexivity|]; right; left; split; [left; reflexivity|]; split;
+    [ let i := fresh "i" in let k := fresh "k" in let Hi := fresh "Hi" in
+      intros i k Hi; change (Z.to_nat (max_iter zopts_mix)) with 2%nat in Hi; three_cases i
+    | change (Z.to_nat (max_iter zopts_mix)) with 2%nat; unfold regime_from; split; [|split; [|split]];
+      [ let i := fresh "i" in let Hi := fresh "Hi" in intros i Hi; three_cases i
+      | intros _; vm_compute; reflexivity
+      | let E := fresh "E" in intros E; discriminate E
+      | let E := fresh "E" in intros E; discriminate E ] ].
+  Ltac next_period :=
+    match goal with |- context [if ?b then _ else _] => let x := eval vm_compute in b in change b with x end; cbv iota.
+  Example solve_mixed_statuses_instance :
+    agree Z (w_solve Z Z.sub Z.abs Z.ltb zfin 0 zevf zfmod_sq zdesc_sq zopts_mix FIgnore [0; 1; 2; 3]%nat zstate_mix)
+            (py_solve Z Z.sub Z.abs Z.ltb zfin 0 zev (no_hook Z) (no_hook Z) zdesc_sq zopts_mix [0; 1; 2; 3]%nat zstate_mix) /\
+    snd (w_solve Z Z.sub Z.abs Z.ltb zfin 0 zevf zfmod_sq zdesc_sq zopts_mix FIgnore [0; 1; 2; 3]%nat zstate_mix) = Ret [true; false; false; true] /\
+    status (fst (w_solve Z Z.sub Z.abs Z.ltb zfin 0 zevf zfmod_sq zdesc_sq zopts_mix FIgnore [0; 1; 2; 3]%nat zstate_mix))
+    = [Solved; Failed; Skipped; Solved] /\
+    iters (fst (w_solve Z Z.sub Z.abs Z.ltb zfin 0 zevf zfmod_sq zdesc_sq zopts_mix FIgnore [0; 1; 2; 3]%nat zstate_mix)) = [1; 2; 1; 1].
+  Proof.
+    split; [|repeat split; vm_compute; reflexivity].
+    apply (w_solve_refinesG Z Z.sub Z.abs Z.ltb zfin 0 zevf zev zfmod_sq zdesc_sq zopts_mix 4%nat 2%nat 1 2 FIgnore).
+    - lia.
+    - repeat constructor.
+    - repeat constructor.
+    - reflexivity.
+    - reflexivity.
+    - reflexivity.
+    - cbn; lia.
+    - cbn; lia.
+    - intros idx v Hv. apply (f_pass_shape Z Z.add Z.sub Z.mul Z.quot Z.opp Z.abs Z.ltb zid zid zid Z.pow zid zid zid Z.pow 0 1). exact Hv.
+    - reflexivity.
+    - reflexivity.
+    - reflexivity.
+    - split; [reflexivity|]. repeat constructor.
+    - reflexivity.
+    - cbn [solve_okG]. split; [mix_period|]. next_period.
+      split; [mix_period|]. next_period.
+      split; [mix_period|]. next_period.
+      split; [mix_period|]. next_period. exact I.
+  Qed.
 End ZSkip.
